@@ -156,3 +156,54 @@ def c20_entropy(tier):
         if f.is_subclass(cls, "SMCSampler"):
             out.append(ob(f"routing:C20:{cls} ({st}) offers a way to supply the resampling generator (rng in __init__: {'rng' in ip[0] + ip[3]}, in sample: {'rng' in sp[0] + sp[3]})", has, cls))
     return out
+
+
+def c13_bindings(tier):
+    """every key of Aspire.config_dict() that _build_aspire_from_file hands to the constructor is a constructor parameter (or is removed first / captured
+    deliberately), and every recorded setting of the property statement is a key of the saved configuration"""
+    f = Front()
+    out = []
+    cfg_fn = f.get("aspire:Aspire.config_dict")
+    keys = []
+    for n in ast.walk(cfg_fn.node):
+        if isinstance(n, ast.Dict) and len(n.keys) > 5:
+            keys = [k.value for k in n.keys if isinstance(k, ast.Constant)]
+            break
+    for n in ast.walk(cfg_fn.node):
+        if isinstance(n, ast.Subscript) and isinstance(n.value, ast.Name) and n.value.id == "config" and isinstance(n.slice, ast.Constant) and isinstance(n.ctx, ast.Store):
+            keys.append(n.slice.value)
+    init = f.get("aspire:Aspire.__init__")
+    pos, defaults, vararg, kwonly, kwarg = signature(init.node)
+    params = set(pos[1:] + kwonly)
+    build = f.get("aspire:Aspire._build_aspire_from_file")
+    popped = set()
+    for n in ast.walk(build.node):
+        if isinstance(n, ast.Call) and isinstance(n.func, ast.Attribute) and n.func.attr == "pop" and isinstance(n.func.value, ast.Name) and n.func.value.id == "config_dict" and n.args and isinstance(n.args[0], ast.Constant):
+            popped.add(n.args[0].value)
+    for k in keys:
+        ok = k in params or k in popped
+        out.append(ob(f"config:C13:saved configuration key '{k}' binds to a constructor parameter of Aspire (or is removed before the call)", ok, "aspire:Aspire._build_aspire_from_file"))
+    for need in ("prior_bounds", "periodic_parameters", "flow_kwargs", "xp", "dtype", "bounded_to_unbounded", "bounded_transform", "flow_backend", "flow_matching", "eps", "parameters", "dims"):
+        out.append(ob(f"config:C13:setting '{need}' is part of the saved configuration", need in keys, "aspire:Aspire.config_dict"))
+    # flow options go back to the constructor as keywords (not nested)
+    src = ast.unparse(build.node)
+    out.append(ob("config:C13:recorded flow options are unpacked into the constructor call (**flow_kwargs)", "**flow_kwargs" in src and "flow_kwargs" in popped, "aspire:Aspire._build_aspire_from_file"))
+    # flows: recorded **kwargs entry is unpacked by both loaders
+    for q in ("flows.torch.flows:BaseTorchFlow.load", "flows.jax.flows:FlowJax.load"):
+        s2 = ast.unparse(f.get(q).node)
+        out.append(ob(f"config:C13:{q.split(':')[1]} unpacks the recorded constructor **kwargs", "config.pop('kwargs'" in s2 and "config.update(kwargs)" in s2, q))
+    # transforms: cls(**config) - every config_dict key of every transform class is a constructor parameter of that class
+    for cname in ("IdentityTransform", "CompositeTransform", "FlowTransform", "PeriodicTransform", "ProbitTransform", "LogitTransform", "AffineTransform"):
+        keys_t = set()
+        for c in reversed(f.mro(cname)):
+            ci = f.classes[c]
+            if "config_dict" in ci.methods:
+                for n in ast.walk(ci.methods["config_dict"].node):
+                    if isinstance(n, ast.Dict):
+                        keys_t |= {k.value for k in n.keys if isinstance(k, ast.Constant)}
+                    if isinstance(n, ast.Call) and isinstance(n.func, ast.Attribute) and n.func.attr == "pop" and n.args and isinstance(n.args[0], ast.Constant):
+                        keys_t.discard(n.args[0].value)
+        ini = f.find_method(cname, "__init__")
+        ip = signature(ini.node)
+        out.append(ob(f"config:C13:{cname}: every key of config_dict() {sorted(keys_t)} is a parameter of its constructor", keys_t <= set(ip[0][1:] + ip[3]), f"transforms:{cname}"))
+    return out
